@@ -424,6 +424,36 @@ type LWithAnon2 struct {
 	}
 }
 
+// LLock / LCounter: a struct that holds a lock (pointer-receiver Lock/Unlock, the shape go vet's copylocks rule looks
+// for); slices of it are copied element by element like any other struct.
+type LLock struct{ state int }
+
+func (l *LLock) Lock()   { l.state = 1 }
+func (l *LLock) Unlock() { l.state = 0 }
+
+type LCounter struct {
+	mu LLock
+	N  int
+}
+
+// LMoney / LLine / LOrderD ...: a getter chain three levels deep whose last step is a pointer-receiver getter on a
+// by-value field of a getter result (src.Line().Price.Currency() does not compile).
+type LMoney struct{ cur_ string }
+
+func (m *LMoney) Currency() string { tr.Hit("m:LMoney.Currency"); return m.cur_ }
+
+type LLine struct {
+	Price LMoney
+	Qty   int
+}
+
+type LMoneyD struct{ Currency string }
+
+type LLineD struct {
+	Price LMoneyD
+	Qty   int
+}
+
 // LForeign is a local type whose underlying struct (and its unexported member) comes from package ext.
 type LForeign ext.Inner
 
@@ -499,6 +529,8 @@ var Alphabet = []TypeAtom{
 	{"[]LInt", "", "slice-named"},
 	{"[]ext.MyInt", "[]MyInt", "slice-named"},
 	{"[]LStatus", "", "slice-named"},
+	{"[]LPStatus", "", "slice-named-pointer-receiver-stringer"},
+	{"[]LCounter", "", "slice-struct-holding-a-lock"},
 	{"[]LInner", "", "slice-struct"},
 	{"[]*LInner", "", "slice-pointer"},
 	{"[]ext.Inner", "[]Inner", "slice-struct"},
